@@ -114,7 +114,7 @@ func Iterate(obj Object, fn func(Object) bool) error {
 		}
 		for {
 			item, err := Next(iterator)
-			if err == StopIteration {
+			if IsException(StopIteration, err) {
 				break
 			}
 			if err != nil {
